@@ -79,7 +79,7 @@ func isSinkType(t types.Type) bool {
 	if !ok {
 		return false
 	}
-	if sinkTypeNames[n.Obj().Name()] {
+	if sinkTypeNames[core.NameOf(n.Obj())] {
 		return true
 	}
 	return false
@@ -205,7 +205,7 @@ func sortedBeforeUse(inf *types.Info, fd *ast.FuncDecl, obj types.Object, after 
 				}
 			}
 			f := core.Callee(inf, call)
-			if f != nil && f.Pkg() != nil && (f.Pkg().Path() == "sort" || f.Pkg().Path() == "slices") && strings.HasPrefix(f.Name(), "S") && len(call.Args) >= 1 && rootIdent(stripSliceConv(inf, call.Args[0])) == firstUse {
+			if f != nil && f.Pkg() != nil && (f.Pkg().Path() == "sort" || f.Pkg().Path() == "slices") && strings.HasPrefix(core.NameOf(f), "S") && len(call.Args) >= 1 && rootIdent(stripSliceConv(inf, call.Args[0])) == firstUse {
 				return true, ""
 			}
 			break
@@ -413,9 +413,9 @@ func classifyMapRange(c *core.Ctx, s *mapRangeSite) (idiom string, bad string) {
 				idioms["I2(callers sort)"] = true
 				continue
 			}
-			return "", "slice " + o.Name() + " filled in map order is returned and " + whyc
+			return "", "slice " + core.NameOf(o) + " filled in map order is returned and " + whyc
 		}
-		return "", "slice " + o.Name() + ": " + why
+		return "", "slice " + core.NameOf(o) + ": " + why
 	}
 	if len(idioms) == 0 {
 		idioms["I4 (no order-sensitive effect: predicates / error returns only)"] = true
@@ -481,7 +481,7 @@ func callersSort(c *core.Ctx, fd *ast.FuncDecl, inf *types.Info) (bool, string) 
 						return true
 					}
 					f := core.Callee(pinf, call)
-					if f == nil || f.Name() != name || f.Pkg() == nil || f.Pkg().Path() != c.M.PkgOf(inf.Defs[fd.Name]).PkgPath {
+					if f == nil || core.NameOf(f) != name || f.Pkg() == nil || f.Pkg().Path() != c.M.PkgOf(inf.Defs[fd.Name]).PkgPath {
 						return true
 					}
 					calls++
@@ -527,7 +527,7 @@ func runR092(c *core.Ctx) {
 		var cbParam types.Object
 		for _, fl := range fd.Type.Params.List {
 			for _, n := range fl.Names {
-				if nt, ok := inf.Defs[n].Type().(*types.Named); ok && nt.Obj().Name() == "MapWriter" {
+				if nt, ok := inf.Defs[n].Type().(*types.Named); ok && core.NameOf(nt.Obj()) == "MapWriter" {
 					cbParam = inf.Defs[n]
 				}
 			}
@@ -538,7 +538,7 @@ func runR092(c *core.Ctx) {
 		v.Inspect(func(fr *core.VFrame, n ast.Node) bool {
 			if call, ok := n.(*ast.CallExpr); ok && len(call.Args) >= 1 {
 				f := core.Callee(fr.Info, call)
-				if f != nil && f.Pkg() != nil && (f.Pkg().Path() == "sort" && (core.NameOf(f) == "Slice" || core.NameOf(f) == "SliceStable" || core.NameOf(f) == "Sort") || f.Pkg().Path() == "slices" && strings.HasPrefix(f.Name(), "Sort")) {
+				if f != nil && f.Pkg() != nil && (f.Pkg().Path() == "sort" && (core.NameOf(f) == "Slice" || core.NameOf(f) == "SliceStable" || core.NameOf(f) == "Sort") || f.Pkg().Path() == "slices" && strings.HasPrefix(core.NameOf(f), "Sort")) {
 					if sortCall == nil {
 						sortCall, sortFrame = call, fr
 						sortedObj = v.ObjOf(fr.Info, call.Args[0])
@@ -580,7 +580,7 @@ func runR092(c *core.Ctx) {
 								}
 							}
 						} else if core.ObjOf(fr.Info, el) == keyParam && i < st.NumFields() && keyField == "" {
-							keyField = st.Field(i).Name()
+							keyField = core.NameOf(st.Field(i))
 						}
 					}
 				case *ast.AssignStmt:
@@ -655,7 +655,7 @@ func runR092(c *core.Ctx) {
 				return true
 			}
 			f := core.Callee(fr.Info, call)
-			isEmit := f != nil && (f.Name() == spec.emit || core.NameOf(f) == "DumpTo")
+			isEmit := f != nil && (core.NameOf(f) == spec.emit || core.NameOf(f) == "DumpTo")
 			if !isEmit {
 				return true
 			}
@@ -689,7 +689,7 @@ func runR092(c *core.Ctx) {
 			}
 			if !inLoop || !v.Before(sortCall, call) {
 				if os.Getenv("VERIF_DEBUG") != "" {
-					fmt.Fprintf(os.Stderr, "R09.2 debug: emission %s at %s inLoop=%v afterSort=%v frame=%s\n", core.ExprString(call), c.M.Position(call.Pos()), inLoop, v.Before(sortCall, call), fr.Name())
+					fmt.Fprintf(os.Stderr, "R09.2 debug: emission %s at %s inLoop=%v afterSort=%v frame=%s\n", core.ExprString(call), c.M.Position(call.Pos()), inLoop, v.Before(sortCall, call), core.NameOf(fr))
 				}
 				emitOK = false
 			}
@@ -839,7 +839,7 @@ func runR093(c *core.Ctx) {
 		ast.Inspect(file, func(n ast.Node) bool {
 			if id, ok := n.(*ast.Ident); ok {
 				if v, ok := inf.Uses[id].(*types.Var); ok && v.Parent() == p.Types.Scope() {
-					vars = append(vars, v.Name())
+					vars = append(vars, core.NameOf(v))
 				}
 			}
 			return true
@@ -941,6 +941,21 @@ func elementwiseEqual(c *core.Ctx, inf *types.Info, fd *ast.FuncDecl) string {
 	}
 	_, isMap := params[0].Type().Underlying().(*types.Map)
 	isContainer := func(o types.Object) bool { return o != nil && (o == params[0] || o == params[1]) }
+	// the standard library's element-wise comparisons are what this function checks for: slices.EqualFunc and
+	// maps.EqualFunc compare the lengths first, then every element (every key, with its presence in the other map)
+	if len(fd.Body.List) == 1 {
+		if r, ok := fd.Body.List[0].(*ast.ReturnStmt); ok && len(r.Results) == 1 {
+			if call, ok := core.Unparen(r.Results[0]).(*ast.CallExpr); ok && len(call.Args) == 3 {
+				f := core.Callee(inf, call)
+				if f != nil && f.Pkg() != nil && f.Name() == "EqualFunc" && ((f.Pkg().Path() == "slices" && !isMap) || (f.Pkg().Path() == "maps" && isMap)) {
+					a, b := core.ObjOf(inf, call.Args[0]), core.ObjOf(inf, call.Args[1])
+					if isContainer(a) && isContainer(b) && a != b && core.ObjOf(inf, call.Args[2]) == eq {
+						return ""
+					}
+				}
+			}
+		}
+	}
 	lenOfParam := func(e ast.Expr) types.Object {
 		call, ok := core.Unparen(e).(*ast.CallExpr)
 		if !ok || len(call.Args) != 1 {
